@@ -179,6 +179,10 @@ struct Cx<'a> {
     loop_depth: usize,
     /// innermost-last: the continuation of the enclosing `for` body and the Boolean that records a `break`
     for_konts: Vec<(Kont, String)>,
+    /// innermost-last: what a `continue` of the enclosing `for` body continues with
+    cont_konts: Vec<Kont>,
+    /// `let x = &mut LIST[i];` with `i` an immutable local: `x` stands for that element (list expression, index expression)
+    elem_aliases: BTreeMap<String, (Expr, Expr)>,
     /// number of invalidations that may have changed a plain (non-Cell) place so far
     hard_inval: usize,
     epoch: usize,
@@ -214,7 +218,13 @@ pub struct Sig {
     pub written: Vec<String>,
     /// no effect log, no cfg inputs, no fuel, not over the abstract interpreter state: callable from translated code on a sub-place
     pub simple: bool,
+    /// like `simple`, except that the function takes a bound on the iterations of a `loop` (its own or a callee's) as first argument
+    pub simple_fuel: bool,
 }
+
+/// Structs whose translated methods may be called on `self` from other translated methods of the same struct (everywhere else a
+/// `self.m(..)` statement is an entry of the effect log, which is what the statement-compiler theorems are stated over).
+const INLINE_SELF_CALL_OWNERS: &[&str] = &["ObjStringStore"];
 
 fn lean_ident(s: &str) -> String {
     let mut out: String = s
@@ -352,6 +362,7 @@ impl<'a> Cx<'a> {
 
     fn declare(&mut self, name: &str, ty: LT) -> String {
         let lean = lean_ident(name);
+        self.elem_aliases.remove(name);
         self.scopes.last_mut().unwrap().insert(name.to_string(), Var { lean: lean.clone(), ty });
         lean
     }
